@@ -28,6 +28,7 @@ bool brute(const std::vector<vl::op>& ops, u64 initial) {
       const auto& o = ops[static_cast<std::size_t>(perm[i])];
       if (o.kind == vl::INSERT) { if (o.ok) { ok = state == 0; state = o.value; } else ok = state != 0; }
       else if (o.kind == vl::REMOVE) { if (o.ok) { ok = state != 0; state = 0; } else ok = state == 0; }
+      else if (o.kind == vl::CLEAR) { state = 0; }
       else { ok = o.ok ? (state != 0 && state == o.value) : state == 0; }
     }
     if (ok) return true;
@@ -52,14 +53,16 @@ int main(int argc, char** argv) {
     for (u64 i = 0; i < n; ++i) {
       vl::op o;
       o.kind = static_cast<int>(r.below(3));
+      if (r.chance(0.12)) o.kind = vl::CLEAR;
       o.thread = static_cast<int>(r.below(3));
       o.call = clock + r.below(6);
       o.ret = o.call + 1 + r.below(12);
       clock += r.below(5);
       if (o.kind == vl::INSERT) { o.value = next_val++; values.push_back(o.value); o.ok = state == 0; if (o.ok) state = o.value; }
       else if (o.kind == vl::REMOVE) { o.ok = state != 0; if (o.ok) state = 0; }
+      else if (o.kind == vl::CLEAR) { o.ok = true; state = 0; }
       else { o.ok = state != 0; o.value = state; }
-      if (r.chance(0.25)) o.ok = !o.ok;
+      if (o.kind != vl::CLEAR && r.chance(0.25)) o.ok = !o.ok;
       if (o.kind == vl::GET && o.ok && (o.value == 0 || r.chance(0.2))) o.value = r.pick(values);
       ops.push_back(o);
     }
